@@ -649,6 +649,15 @@ fn mutate(r: &mut Prng, input: &[u8], other: &[u8]) -> (Vec<u8>, &'static str) {
         _ => {
             // two complete messages glued, or message without delimiter
             if r.chance(1, 2) {
+                // the delimiter between two replies got lost: the second one bears the id of
+                // another outstanding request, an id nobody asked for, or the same id again
+                let glue = String::from_utf8_lossy(&v).replace(MARKER, "");
+                let second = String::from_utf8_lossy(other).replace("@ID@", *r.pick(&["@IDA@", "@IDC@", "4711", "@ID@"]));
+                let mut o = glue.into_bytes();
+                o.extend_from_slice(second.as_bytes());
+                if r.chance(1, 2) {
+                    return (o, "two-replies-in-one-frame");
+                }
                 v.extend_from_slice(other);
                 (v, "two-messages-in-one")
             } else {
@@ -867,6 +876,12 @@ fn three_outstanding(s: &mut Sess, kind: Kind, mutated: &[u8], original: &[u8], 
         if mutated[i..].starts_with(b"@ID@") {
             m2.extend_from_slice(ids[1].as_bytes());
             i += 4;
+        } else if mutated[i..].starts_with(b"@IDA@") {
+            m2.extend_from_slice(ids[0].as_bytes());
+            i += 5;
+        } else if mutated[i..].starts_with(b"@IDC@") {
+            m2.extend_from_slice(ids[2].as_bytes());
+            i += 5;
         } else {
             m2.push(mutated[i]);
             i += 1;
